@@ -54,6 +54,8 @@ pub struct Fx {
     /// the closure multiplies its result by 2^scale (exact): puts the results into the top or bottom binade of the
     /// float type, where a careless (a + b) / 2 overflows
     pub scale: i32,
+    /// which syntactic forms the closure uses to evaluate the polynomial (exact.rs)
+    pub style: u64,
 }
 
 /// x * 2^k, by the scalar multiplication of the number type
@@ -190,26 +192,26 @@ macro_rules! reenter_with {
 
 pub fn first_derivative_case<T: Subj<F>, F: DualNumFloat>(fx: &Fx, inner: Option<&Fx>, fallible: bool, ctx: &Ctx) -> Result<Vec<Part>, Token> {
     let x = T::make(fx.a[0], fx.b[0]);
-    let body = |v: Dual<T, F>| behave(ctx, || scaled(eval_generic(&fx.polys[0], &[v.clone()]), fx.scale), reenter_with!(ctx, inner, |i, c| first_derivative_case::<T, F>(i, None, fallible, c)));
+    let body = |v: Dual<T, F>| behave(ctx, || scaled(eval_generic(&fx.polys[0], &[v.clone()], fx.style), fx.scale), reenter_with!(ctx, inner, |i, c| first_derivative_case::<T, F>(i, None, fallible, c)));
     let r = if fallible { try_first_derivative(body, x)? } else { first_derivative(|v| infallible(body(v)), x) };
     Ok(vec![r.0.part(), r.1.part()])
 }
 pub fn second_derivative_case<T: Subj<F>, F: DualNumFloat>(fx: &Fx, inner: Option<&Fx>, fallible: bool, ctx: &Ctx) -> Result<Vec<Part>, Token> {
     let x = T::make(fx.a[0], fx.b[0]);
-    let body = |v: Dual2<T, F>| behave(ctx, || scaled(eval_generic(&fx.polys[0], &[v.clone()]), fx.scale), reenter_with!(ctx, inner, |i, c| second_derivative_case::<T, F>(i, None, fallible, c)));
+    let body = |v: Dual2<T, F>| behave(ctx, || scaled(eval_generic(&fx.polys[0], &[v.clone()], fx.style), fx.scale), reenter_with!(ctx, inner, |i, c| second_derivative_case::<T, F>(i, None, fallible, c)));
     let r = if fallible { try_second_derivative(body, x)? } else { second_derivative(|v| infallible(body(v)), x) };
     Ok(vec![r.0.part(), r.1.part(), r.2.part()])
 }
 pub fn third_derivative_case<T: Subj<F>, F: DualNumFloat>(fx: &Fx, inner: Option<&Fx>, fallible: bool, ctx: &Ctx) -> Result<Vec<Part>, Token> {
     let x = T::make(fx.a[0], fx.b[0]);
-    let body = |v: Dual3<T, F>| behave(ctx, || scaled(eval_generic(&fx.polys[0], &[v.clone()]), fx.scale), reenter_with!(ctx, inner, |i, c| third_derivative_case::<T, F>(i, None, fallible, c)));
+    let body = |v: Dual3<T, F>| behave(ctx, || scaled(eval_generic(&fx.polys[0], &[v.clone()], fx.style), fx.scale), reenter_with!(ctx, inner, |i, c| third_derivative_case::<T, F>(i, None, fallible, c)));
     let r = if fallible { try_third_derivative(body, x)? } else { third_derivative(|v| infallible(body(v)), x) };
     Ok(vec![r.0.part(), r.1.part(), r.2.part(), r.3.part()])
 }
 pub fn second_partial_derivative_case<T: Subj<F>, F: DualNumFloat>(fx: &Fx, inner: Option<&Fx>, fallible: bool, ctx: &Ctx) -> Result<Vec<Part>, Token> {
     let (x, y) = (T::make(fx.a[0], fx.b[0]), T::make(fx.a[1], fx.b[1]));
     let body = |u: HyperDual<T, F>, v: HyperDual<T, F>| {
-        behave(ctx, || scaled(eval_generic(&fx.polys[0], &[u.clone(), v.clone()]), fx.scale), reenter_with!(ctx, inner, |i, c| second_partial_derivative_case::<T, F>(i, None, fallible, c)))
+        behave(ctx, || scaled(eval_generic(&fx.polys[0], &[u.clone(), v.clone()], fx.style), fx.scale), reenter_with!(ctx, inner, |i, c| second_partial_derivative_case::<T, F>(i, None, fallible, c)))
     };
     let r = if fallible { try_second_partial_derivative(body, x, y)? } else { second_partial_derivative(|u, v| infallible(body(u, v)), x, y) };
     Ok(vec![r.0.part(), r.1.part(), r.2.part(), r.3.part()])
@@ -217,7 +219,7 @@ pub fn second_partial_derivative_case<T: Subj<F>, F: DualNumFloat>(fx: &Fx, inne
 pub fn third_partial_derivative_case<T: Subj<F>, F: DualNumFloat>(fx: &Fx, inner: Option<&Fx>, fallible: bool, ctx: &Ctx) -> Result<Vec<Part>, Token> {
     let (x, y, z) = (T::make(fx.a[0], fx.b[0]), T::make(fx.a[1], fx.b[1]), T::make(fx.a[2], fx.b[2]));
     let body = |u: HyperHyperDual<T, F>, v: HyperHyperDual<T, F>, w: HyperHyperDual<T, F>| {
-        behave(ctx, || scaled(eval_generic(&fx.polys[0], &[u.clone(), v.clone(), w.clone()]), fx.scale), reenter_with!(ctx, inner, |i, c| third_partial_derivative_case::<T, F>(i, None, fallible, c)))
+        behave(ctx, || scaled(eval_generic(&fx.polys[0], &[u.clone(), v.clone(), w.clone()], fx.style), fx.scale), reenter_with!(ctx, inner, |i, c| third_partial_derivative_case::<T, F>(i, None, fallible, c)))
     };
     let r = if fallible { try_third_partial_derivative(body, x, y, z)? } else { third_partial_derivative(|u, v, w| infallible(body(u, v, w)), x, y, z) };
     Ok(vec![r.0.part(), r.1.part(), r.2.part(), r.3.part(), r.4.part(), r.5.part(), r.6.part(), r.7.part()])
@@ -225,7 +227,7 @@ pub fn third_partial_derivative_case<T: Subj<F>, F: DualNumFloat>(fx: &Fx, inner
 pub fn third_partial_derivative_vec_case<T: Subj<F>, F: DualNumFloat>(fx: &Fx, inner: Option<&Fx>, fallible: bool, ctx: &Ctx) -> Result<Vec<Part>, Token> {
     let x: Vec<T> = fx.a.iter().zip(&fx.b).map(|(a, b)| T::make(*a, *b)).collect();
     let [i, j, k] = fx.ijk;
-    let body = |v: &[HyperHyperDual<T, F>]| behave(ctx, || scaled(eval_generic(&fx.polys[0], v), fx.scale), reenter_with!(ctx, inner, |i2, c| third_partial_derivative_vec_case::<T, F>(i2, None, fallible, c)));
+    let body = |v: &[HyperHyperDual<T, F>]| behave(ctx, || scaled(eval_generic(&fx.polys[0], v, fx.style), fx.scale), reenter_with!(ctx, inner, |i2, c| third_partial_derivative_vec_case::<T, F>(i2, None, fallible, c)));
     let r = if fallible { try_third_partial_derivative_vec(body, &x, i, j, k)? } else { third_partial_derivative_vec(|v| infallible(body(v)), &x, i, j, k) };
     Ok(vec![r.0.part(), r.1.part(), r.2.part(), r.3.part(), r.4.part(), r.5.part(), r.6.part(), r.7.part()])
 }
@@ -238,7 +240,7 @@ where
 {
     let x = mkvec::<T, F, D>(&fx.a, &fx.b);
     let body = |v: OVector<DualVec<T, F, D>, D>| {
-        behave(ctx, || scaled(eval_generic(&fx.polys[0], &v.iter().cloned().collect::<Vec<_>>()), fx.scale), reenter_with!(ctx, inner, |i, c| gradient_case::<T, F, D>(i, None, fallible, c)))
+        behave(ctx, || scaled(eval_generic(&fx.polys[0], &v.iter().cloned().collect::<Vec<_>>(), fx.style), fx.scale), reenter_with!(ctx, inner, |i, c| gradient_case::<T, F, D>(i, None, fallible, c)))
     };
     let r = if fallible { try_gradient(body, x)? } else { gradient(|v| infallible(body(v)), x) };
     let mut out = vec![r.0.part()];
@@ -251,7 +253,7 @@ where
 {
     let x = mkvec::<T, F, D>(&fx.a, &fx.b);
     let body = |v: OVector<Dual2Vec<T, F, D>, D>| {
-        behave(ctx, || scaled(eval_generic(&fx.polys[0], &v.iter().cloned().collect::<Vec<_>>()), fx.scale), reenter_with!(ctx, inner, |i, c| hessian_case::<T, F, D>(i, None, fallible, c)))
+        behave(ctx, || scaled(eval_generic(&fx.polys[0], &v.iter().cloned().collect::<Vec<_>>(), fx.style), fx.scale), reenter_with!(ctx, inner, |i, c| hessian_case::<T, F, D>(i, None, fallible, c)))
     };
     let r = if fallible { try_hessian(body, x)? } else { hessian(|v| infallible(body(v)), x) };
     let mut out = vec![r.0.part()];
@@ -271,7 +273,7 @@ where
             ctx,
             || {
                 let xs: Vec<_> = v.iter().cloned().collect();
-                OVector::<DualVec<T, F, N>, M>::from_fn_generic(M::from_usize(m), Const::<1>, |i, _| scaled(eval_generic(&fx.polys[i], &xs), fx.scale))
+                OVector::<DualVec<T, F, N>, M>::from_fn_generic(M::from_usize(m), Const::<1>, |i, _| scaled(eval_generic(&fx.polys[i], &xs, fx.style), fx.scale))
             },
             reenter_with!(ctx, inner, |i, c| jacobian_case::<T, F, M, N>(i, None, fallible, c)),
         )
@@ -293,7 +295,7 @@ where
     let body = |u: OVector<HyperDualVec<T, F, M, N>, M>, v: OVector<HyperDualVec<T, F, M, N>, N>| {
         behave(
             ctx,
-            || scaled(eval_generic(&fx.polys[0], &u.iter().chain(v.iter()).cloned().collect::<Vec<_>>()), fx.scale),
+            || scaled(eval_generic(&fx.polys[0], &u.iter().chain(v.iter()).cloned().collect::<Vec<_>>(), fx.style), fx.scale),
             reenter_with!(ctx, inner, |i, c| partial_hessian_case::<T, F, M, N>(i, None, fallible, c)),
         )
     };
